@@ -62,7 +62,8 @@ macro_rules! core_ops2_impl {
                     // sizes that are not multiples of the 64-byte alignment (no in-tree caller does that):
                     // the n windows and the remainder must be pairwise disjoint usable ranges inside the parent.
                     use poulpy_hal::api::{ScratchAvailable, TakeSlice};
-                    let n = 1 + (sh.extra as usize % 6);
+                    // 1..6 windows, or (one draw in eight) more than 32
+                    let n = if (sh.seed >> 20) % 8 == 0 { 33 + (sh.seed >> 23) as usize % 8 } else { 1 + (sh.extra as usize % 6) };
                     let len = if sh.flags & 1 == 0 {
                         (sh.k_res as usize * 8 + sh.b_res as usize + (sh.seed % 97) as usize) % 700 + 1
                     } else {
@@ -139,7 +140,8 @@ macro_rules! core_ops2_impl {
                 bb.encrypt_sk(m, (sh.seed >> 32) as u32, &c.sk_prep, &enc, &mut src(sh.seed, 5), &mut src(sh.seed, 6), big.borrow());
                 let mut res: FheUint<Vec<u8>, u32> = FheUint::alloc_from_infos(&c.glwe_infos);
                 let multi = op.ends_with("_multi_thread");
-                let threads = if multi { 2 + (sh.extra as usize % 4) + if sh.rank_in == 3 { 7 } else { 0 } } else { 1 };
+                // 32 output bits: 1, 2, a count that does not divide them, 32, more than 32, a few
+                let threads = if multi { crate::c12::ops::draw::threads(sh.seed >> 20, 32) } else { 1 };
                 let name = op.trim_start_matches("word_").trim_end_matches("_multi_thread");
                 macro_rules! word {
                     ($single:ident, $multi:ident, $tb:ident, $mtb:ident) => {{
